@@ -187,12 +187,86 @@ fn check(c: &Case) -> CheckResult {
     Ok(out)
 }
 
+/// Several approximations of ONE Poisson process (same rate, different epsilon) queried in a generated
+/// order in one thread: every answer must be the quantile for the epsilon of the instance that was asked,
+/// whatever was asked before (of this or of another instance).
+#[derive(Clone, Debug, Serialize, Deserialize)]
+pub struct InstCase {
+    pub rate: f64,
+    pub eps: Vec<f64>,
+    pub deltas: Vec<u64>,
+    /// (index into eps, index into deltas)
+    pub queries: Vec<(usize, usize)>,
+}
+
+fn inst_strategy(_tier: Tier) -> BoxedStrategy<InstCase> {
+    (
+        -2000i32..2300, // mean of the first interval: 10^-2 .. ~200
+        1u64..=2000,
+        proptest::collection::vec(300u32..9000, 2..5),
+        proptest::collection::vec(1u64..=2000, 0..3),
+        proptest::collection::vec((0usize..64, 0usize..64), 2..10),
+    )
+        .prop_map(|(mean_e, delta, eps_e, more, q)| {
+            let mean = 10f64.powf(mean_e as f64 / 1000.0);
+            let rate = mean / delta as f64;
+            let eps: Vec<f64> = eps_e.iter().map(|e| 10f64.powf(-(*e as f64) / 1000.0)).collect();
+            let mut deltas = vec![delta];
+            deltas.extend(more.into_iter().filter(|dl| rate * (*dl as f64) <= 400.0));
+            let queries = q.into_iter().map(|(i, j)| ((i * eps.len()) >> 6, (j * deltas.len()) >> 6)).collect();
+            InstCase { rate, eps, deltas, queries }
+        })
+        .boxed()
+}
+
+fn inst_check(c: &InstCase) -> CheckResult {
+    // every case runs in a thread of its own: whatever per-thread state the crate might keep starts
+    // empty, so a failing case (and its shrunk form) reproduces from the replay file alone
+    std::thread::scope(|s| s.spawn(|| inst_check_inner(c)).join()).unwrap_or_else(|_| Err("the checking thread panicked".into()))
+}
+
+fn inst_check_inner(c: &InstCase) -> CheckResult {
+    let mut out = Outcome::default();
+    let aps: Vec<ApproximatedPoisson> = c.eps.iter().map(|e| ApproximatedPoisson::new(c.rate, *e)).collect();
+    let mut distinct_answers = std::collections::BTreeSet::new();
+    let mut seen = std::collections::BTreeSet::new();
+    let mut revisits = 0;
+    for (qi, &(i, j)) in c.queries.iter().enumerate() {
+        let (eps, delta) = (c.eps[i], c.deltas[j]);
+        let mean = c.rate * delta as f64;
+        let got = guard_with_budget(60_000_000, || aps[i].number_arrivals(d(delta)))
+            .map_err(|e| format!("query #{}: number_arrivals({}) did not return: {}", qi, delta, e))? as u64;
+        let rp = RefPoisson::new(mean);
+        let tol = 1e-11 + mean * 1e-11;
+        let n_lo = rp.quantile_by_tail(eps + tol);
+        let n_hi = if eps - tol > 0.0 { rp.quantile_by_tail(eps - tol) } else { u64::MAX };
+        if got < n_lo || got > n_hi {
+            return Err(format!(
+                "query #{} of {:?} (rate {:e}): the instance with epsilon {:.3e} answers number_arrivals({}) = {}; the (1-epsilon) quantile for mean {:.4} is {} (tolerance band [{}, {}])",
+                qi, c.queries, c.rate, eps, delta, got, mean, rp.quantile_by_tail(eps), n_lo, n_hi
+            ));
+        }
+        if seen.iter().any(|&(i2, j2)| j2 == j && i2 != i) {
+            revisits += 1;
+        }
+        seen.insert((i, j));
+        distinct_answers.insert((j, got));
+        out.inner += 1;
+    }
+    // non-trivial: the same interval was asked of two instances and the right answers differ
+    let differing = c.deltas.iter().enumerate().any(|(j, _)| distinct_answers.iter().filter(|(j2, _)| *j2 == j).count() >= 2);
+    out.nontrivial = revisits > 0 && differing;
+    out.label_if(revisits > 0, "same-delta-other-epsilon");
+    out.label_if(differing, "answers-differ");
+    Ok(out)
+}
+
 pub fn def() -> PropertyDef {
     PropertyDef {
         id: "C15",
-        rule: "generated: interval length 1..10^4, mean rate*delta log-uniform in [10^-3, ~2500 (quick) / ~5000 (thorough)] (so both large rates and large intervals occur), epsilon log-uniform in [10^-10, 0.5]; oracle: independent evaluation of the Poisson pmf by ratio recurrence from the mode (ln k! by Stirling series), upper tail summed from the far right; the returned n must lie in the band of quantiles for 1-epsilon -/+ (1e-11 + mean*1e-11) (stated tolerance so that float rounding at a boundary cannot alarm); 0 at delta=0; monotone over additional generated interval lengths; arrival_probability within relative 1e-6 of the pmf at generated k around the mean (skipped below 1e-280); termination decided by a step budget (6*10^7 loop iterations; the legitimate cost is ~n^2/2 <= 1.5*10^7). Non-trivial: mean >= 100. Distinct by case JSON.".into(),
+        rule: "generated: interval length 1..10^4, mean rate*delta log-uniform in [10^-3, ~2500 (quick) / ~5000 (thorough)] (so both large rates and large intervals occur), epsilon log-uniform in [10^-10, 0.5]; oracle: independent evaluation of the Poisson pmf by ratio recurrence from the mode (ln k! by Stirling series), upper tail summed from the far right; the returned n must lie in the band of quantiles for 1-epsilon -/+ (1e-11 + mean*1e-11) (stated tolerance so that float rounding at a boundary cannot alarm); 0 at delta=0; monotone over additional generated interval lengths; arrival_probability within relative 1e-6 of the pmf at generated k around the mean (skipped below 1e-280); termination decided by a step budget (6*10^7 loop iterations; the legitimate cost is ~n^2/2 <= 1.5*10^7). Non-trivial: mean >= 100. Sub-check instances: 2-4 approximations of one process (same rate, different epsilon) are queried for 1-3 interval lengths in a generated order of 2-9 queries inside one thread (a fresh thread per case, so that a case reproduces on its own); every answer must lie in the quantile band of the epsilon of the instance asked, so no state may leak between instances or queries (non-trivial: one interval asked of two instances whose correct answers differ). Distinct by case JSON.".into(),
         assumptions: vec!["rate > 0, 0 < epsilon < 1, float comparisons with the stated tolerances".into()],
-        subchecks: vec![subcheck("quantile", (400, 12_000), strategy, check)],
+        subchecks: vec![subcheck("quantile", (400, 12_000), strategy, check), subcheck("instances", (600, 8_000), inst_strategy, inst_check)],
         extra: None,
     }
 }
